@@ -847,11 +847,16 @@ func (db *DB) Drop() (err error) {
 
 // DeleteAll deletes all Objects of the same type and commit changes
 func (db *DB) DeleteAll(of Object) (err error) {
+	// listing and deleting under the same lock: objects inserted by a
+	// concurrent call in between would survive a DeleteAll otherwise
+	db.Lock()
+	defer db.Unlock()
+
 	var it *iterator
-	if it, err = db.Iterator(of); err != nil {
+	if it, err = db.iterator(of); err != nil {
 		return
 	}
-	return db.DeleteObjects(it)
+	return db.deleteObjects(it)
 }
 
 // DeleteObjects deletes Objects from an Iterator and commit changes.
@@ -860,6 +865,10 @@ func (db *DB) DeleteObjects(from *iterator) (err error) {
 	db.Lock()
 	defer db.Unlock()
 
+	return db.deleteObjects(from)
+}
+
+func (db *DB) deleteObjects(from *iterator) (err error) {
 	var o Object
 
 	defer db.commit(from.object())
